@@ -244,13 +244,13 @@ Example C03_indep_discharged_run :
 Proof. vm_compute. reflexivity. Qed.
 
 (* ---- linked blocks and dictionaries: the block compressor instantiated with the STREAMING models
-   (Proofs/BlkInstLinked.v: LZ4_compress_fast_continue, level < 2, linked blocks with or without dictionary and independent
+   (Proofs/BlkInstFastLinked.v: LZ4_compress_fast_continue, level < 2, linked blocks with or without dictionary and independent
    blocks with a CDict; Proofs/BlkInstHcLinked.v: LZ4_compress_HC_continue at levels 3..12, linked blocks, no CDict).
    The oracle gives, per call, memory / stream context / block address / designated byte history; the instance compresses
    only when that is consistent with the block and the history the LZ4F model offers (explicit glue between FrameC's
    lists and the flat memory of the stream models); lorc_ok / horc_ok are the stream invariants of C11. ---- *)
 From LZ4V Require Import Model.Mem Model.FastStream Model.HcTabStream Model.HcOptStream.
-From LZ4V Require Import Proofs.BlkInstLinked Proofs.BlkInstHcLinked Proofs.BlkFrameInstLinked.
+From LZ4V Require Import Proofs.BlkInstFastLinked Proofs.BlkInstHcLinked Proofs.BlkFrameInstLinked.
 
 Theorem C03_roundtrip_fast_stream_discharged : forall level st, (forall n, lorc_ok (st n)) ->
   forall c0 po dk ms F X,
